@@ -57,7 +57,7 @@ def gen_cases(ctx):
         if case.get('kind') == 'sync' and case.get('part') != 'churn':
             yield dict(part='retry', cfg=case)
     for case in c19.gen_cases(ctx):
-        if case.get('kind') == 'sync':
+        if case.get('kind') == 'sync' and case.get('part') != 'badtracer':
             yield dict(part='tracer', cfg=case)
     for case in c08.gen_cases(ctx):
         if ctx.quick and case.get('part') == 'batch' and case.get('n', 0) >= 3 and len(case.get('entries', ())) >= 3 and 'junk' not in case:
